@@ -27,7 +27,7 @@ MANIFEST = {
         "design_ref": "DESIGN.md 3/C16",
     }
 }
-PROPS = ["Nstd.Xml.Props", "Nstd.Xml.PropsDecor", "Nstd.Xml.PropsHeap", "Nstd.Xml.PropsGen"]
+PROPS = ["Nstd.Xml.Props", "Nstd.Xml.PropsDecor", "Nstd.Xml.PropsHeap", "Nstd.Xml.PropsGen", "Nstd.Xml.PropsRef"]
 LEAN_TARGETS = PROPS + ["drv_xml"]
 DRIVER = "drv_xml"
 
@@ -955,7 +955,10 @@ ENT = [b"&amp;", b"&lt;", b"&gt;", b"&quot;", b"&apos;"]
 NUM_CLEAN = [b"&#65;", b"&#10;", b"&#233;", b"&#8364;", b"&#128512;", b"&#00066;", b"&#9;", b"&#32;", b"&#13;"]
 NUM_ODD = [b"&#-1;", b"&# 66;", b"&#4294967361;", b"&#x41;", b"&#+67;", b"&#1114111;", b"&#1114112;", b"&#55357;",
            b"&#99999999999999999999;", b"&#-4294967231;", b"&#65x;", b"&#;", b"&#-;", b"&#\n7;", b"&#1;", b"&#127;", b"&#128;",
-           b"&#2047;", b"&#2048;", b"&#65535;", b"&#65536;"]
+           b"&#2047;", b"&#2048;", b"&#65535;", b"&#65536;",
+           # round 7: the boundaries of the value range (NUL, 2^32, 2^64 saturation) and hexadecimal references (not decoded)
+           b"&#0;", b"&#00;", b"&#4294967295;", b"&#4294967296;", b"&#18446744073709551615;", b"&#18446744073709551616;",
+           b"&#x10FFFF;", b"&#x110000;", b"&#x0;", b"&#X41;", b"&#55296;", b"&#57343;", b"&#1114110;", b"&#0000001114112;"]
 STRAY = [b"&", b"& ", b"&amp", b"&x;", b"&;", b"&&", b"&AMP;", b"&amp ;", b";"]
 
 
@@ -1419,8 +1422,18 @@ def histories_for(ctx):
             eops.append("unesc " + hx(py_esc(b, rng.random() < 0.5)))
         else:
             eops.append(f"esc {rng.randrange(2)} {hx(b)}")
+    refhits = {}
     for piece in NUM_ODD + NUM_CLEAN + STRAY:
         eops.append("unesc " + hx(b"x" + piece + b"y"))
+        eops.append("unesc " + hx(piece))                         # the whole value is one reference (unescape_numeric_ref)
+        eops.append("parse " + hx(b'<a v="' + piece + b"\" w='" + piece + b"'>" + piece + b"t</a>"))
+        m = RE_REF.fullmatch(piece)
+        cls = "reference not decoded ('&' kept)" if not m else ("named entity" if m.group(1) else
+                                                                 "numeric reference -> %d byte(s) of UTF-8" % len(_ref(m)))
+        if m and not m.group(1) and int(m.group(3)) >= 1 << 32:
+            cls += " (value >= 2^32: wrapped / saturated)"
+        refhits["unesc: " + cls] = refhits.get("unesc: " + cls, 0) + 1
+    ctx.cov.setdefault("branch_hits", {}).update(refhits)
     for c in range(1, 256):                      # the escape condition / entity table on every byte value
         eops += [f"escm 0 {c:02x}", f"escm 1 {c:02x}", f"esc 0 {c:02x}", f"esc 1 {c:02x}", f"esc 1 61{c:02x}62", f"unesc {c:02x}", f"unesc 26{c:02x}3b", f"unesc 2623{c:02x}3b"]
     counts["esc/unesc ops"] = len(eops)
